@@ -14,14 +14,23 @@
 (* reprices existing constant-price opcodes in place (EIP-1884 on a        *)
 (* pre-Istanbul fork).                                                     *)
 (*                                                                         *)
+(* Also shared: the process-wide precompile objects.  The context writer   *)
+(* (0x66) must learn its caller from a per-call copy (CloneWithCtx); the   *)
+(* registered object itself never holds a caller, which is what makes it   *)
+(* refuse STATICCALL / DELEGATECALL / CALLCODE.  Transactions "W" (a CALL   *)
+(* to 0x66 in every iteration after the first) and "R" (the three other    *)
+(* call kinds to 0x66) exercise it; attaching the caller (WSet) and        *)
+(* running the precompile (inside Step) are separate steps, as in EVM.Call *)
+(* where the value transfer lies between them.                             *)
 (* Deviation switches describe the mistakes the properties exclude:        *)
 (*   DevNoCopy      EnableEIP is applied to the shared table               *)
 (*   DevDirtyPool   a stack goes back to the pool without being emptied    *)
 (*   DevSharedAbort the abort flag is process-wide instead of per instance *)
+(*   DevSharedCtx   the caller is attached to the registered 0x66 object   *)
 (***************************************************************************)
 EXTENDS Integers, Sequences, FiniteSets, TLC
 
-CONSTANTS Inst, MaxSteps, WantSets, Txs, AllowCancel, DevNoCopy, DevDirtyPool, DevSharedAbort
+CONSTANTS Inst, MaxSteps, WantSets, Txs, AllowCancel, DevNoCopy, DevDirtyPool, DevSharedAbort, DevSharedCtx
 
 VARIABLES shared,   \* extra EIPs enabled in the fork's shared jump table (must stay {})
           tref,     \* instance -> "none" | "shared" | "own"
@@ -35,15 +44,20 @@ VARIABLES shared,   \* extra EIPs enabled in the fork's shared jump table (must 
           got,      \* instance -> leftover length of the stack it was handed (-1 before)
           seen,     \* instance -> the extra EIPs in force in the table it executed its first instruction with ({"?"} before)
           after,    \* instance -> loop iterations started after Cancel(i)
+          pcctx,    \* caller held by the registered context-writer object: 0 = none (must stay 0), else an instance
+          wpend,    \* instance -> its CALL to 0x66 has attached the caller and not yet run the precompile
+          wattr,    \* instance -> Seq of instances its context writes were attributed to
+          rres,     \* instance -> Seq of outcomes ("refused" / "accepted") of its non-CALL attempts on 0x66
           want, tx, \* chosen once: extra EIPs and transaction of each instance
           hist
 
-vars == <<shared, tref, own, pool, ph, steps, abort, cancelled, res, got, seen, after, want, tx, hist>>
+vars == <<shared, tref, own, pool, ph, steps, abort, cancelled, res, got, seen, after, pcctx, wpend, wattr, rres, want, tx, hist>>
 
 Init ==
   /\ shared = {} /\ tref = [i \in Inst |-> "none"] /\ own = [i \in Inst |-> {}] /\ pool = <<>>
   /\ ph = [i \in Inst |-> "new"] /\ steps = [i \in Inst |-> 0] /\ abort = [i \in Inst |-> FALSE]
   /\ cancelled = [i \in Inst |-> FALSE] /\ res = [i \in Inst |-> ""] /\ got = [i \in Inst |-> -1] /\ seen = [i \in Inst |-> {"?"}] /\ after = [i \in Inst |-> 0]
+  /\ pcctx = 0 /\ wpend = [i \in Inst |-> FALSE] /\ wattr = [i \in Inst |-> <<>>] /\ rres = [i \in Inst |-> <<>>]
   /\ want \in [Inst -> WantSets] /\ tx \in [Inst -> Txs]
   /\ hist = <<>>
 
@@ -54,25 +68,25 @@ Aborted(i) == IF DevSharedAbort THEN \E j \in Inst : abort[j] ELSE abort[i]
 \* NewEVMInterpreter, as three steps
 Pick(i) ==
   /\ ph[i] = "new" /\ ph' = [ph EXCEPT ![i] = "picked"] /\ tref' = [tref EXCEPT ![i] = "shared"]
-  /\ H(i, "pick") /\ UNCHANGED <<shared, own, pool, steps, abort, cancelled, res, got, seen, after, want, tx>>
+  /\ H(i, "pick") /\ UNCHANGED <<shared, own, pool, steps, abort, cancelled, res, got, seen, after, pcctx, wpend, wattr, rres, want, tx>>
 Copy(i) ==
   /\ ph[i] = "picked" /\ ph' = [ph EXCEPT ![i] = "copied"]
   /\ IF want[i] # {} /\ ~DevNoCopy
      THEN tref' = [tref EXCEPT ![i] = "own"] /\ own' = [own EXCEPT ![i] = shared]
      ELSE UNCHANGED <<tref, own>>
-  /\ H(i, "copy") /\ UNCHANGED <<shared, pool, steps, abort, cancelled, res, got, seen, after, want, tx>>
+  /\ H(i, "copy") /\ UNCHANGED <<shared, pool, steps, abort, cancelled, res, got, seen, after, pcctx, wpend, wattr, rres, want, tx>>
 Enable(i) ==
   /\ ph[i] = "copied" /\ ph' = [ph EXCEPT ![i] = "ready"]
   /\ IF tref[i] = "own" THEN own' = [own EXCEPT ![i] = @ \cup want[i]] /\ UNCHANGED shared
      ELSE shared' = shared \cup want[i] /\ UNCHANGED own
-  /\ H(i, "enable") /\ UNCHANGED <<tref, pool, steps, abort, cancelled, res, got, seen, after, want, tx>>
+  /\ H(i, "enable") /\ UNCHANGED <<tref, pool, steps, abort, cancelled, res, got, seen, after, pcctx, wpend, wattr, rres, want, tx>>
 
 \* entering the interpreter loop: a stack is taken from the pool (or allocated)
 Start(i) ==
   /\ ph[i] = "ready" /\ ph' = [ph EXCEPT ![i] = "running"]
   /\ IF pool = <<>> THEN got' = [got EXCEPT ![i] = 0] /\ UNCHANGED pool
      ELSE got' = [got EXCEPT ![i] = Head(pool)] /\ pool' = Tail(pool)
-  /\ H(i, "start") /\ UNCHANGED <<shared, tref, own, steps, abort, cancelled, res, seen, after, want, tx>>
+  /\ H(i, "start") /\ UNCHANGED <<shared, tref, own, steps, abort, cancelled, res, seen, after, pcctx, wpend, wattr, rres, want, tx>>
 
 Return(i, leftover) == pool' = Append(pool, IF DevDirtyPool THEN leftover ELSE 0)
 
@@ -91,27 +105,43 @@ Step(i) ==
           /\ steps' = [steps EXCEPT ![i] = @ + 1] /\ UNCHANGED after
      ELSE /\ steps' = [steps EXCEPT ![i] = @ + 1] /\ UNCHANGED <<res, ph, pool, after>>
   /\ seen' = IF steps[i] = 0 /\ seen[i] = {"?"} THEN [seen EXCEPT ![i] = TableOf(i)] ELSE seen
-  /\ H(i, "step") /\ UNCHANGED <<shared, tref, own, abort, cancelled, got, want, tx>>
+  \* the iteration's call to the context writer (every iteration after the first; it happens before the jump that polls the abort flag)
+  /\ LET writes == tx[i] = "W" /\ steps[i] >= 1
+         reads == tx[i] = "R" /\ steps[i] >= 1
+     IN /\ writes => wpend[i]
+        /\ wattr' = IF writes THEN [wattr EXCEPT ![i] = Append(@, IF DevSharedCtx THEN pcctx ELSE i)] ELSE wattr
+        /\ wpend' = IF writes THEN [wpend EXCEPT ![i] = FALSE] ELSE wpend
+        /\ rres' = IF reads THEN [rres EXCEPT ![i] = Append(@, IF pcctx = 0 THEN "refused" ELSE "accepted")] ELSE rres
+  /\ H(i, "step") /\ UNCHANGED <<shared, tref, own, abort, cancelled, got, pcctx, want, tx>>
+
+\* EVM.Call on 0x66, first half: the caller is attached - to a per-call copy, or (DevSharedCtx) to the registered object
+WSet(i) ==
+  /\ ph[i] = "running" /\ tx[i] = "W" /\ steps[i] >= 1 /\ ~wpend[i]
+  /\ wpend' = [wpend EXCEPT ![i] = TRUE]
+  /\ pcctx' = IF DevSharedCtx THEN i ELSE pcctx
+  /\ H(i, "wset") /\ UNCHANGED <<shared, tref, own, pool, ph, steps, abort, cancelled, res, got, seen, after, wattr, rres, want, tx>>
 
 \* EVM.Cancel from another goroutine, at any moment
 Cancel(i) ==
   /\ AllowCancel /\ ~cancelled[i] /\ ph[i] \in {"ready", "running"}
   /\ abort' = [abort EXCEPT ![i] = TRUE] /\ cancelled' = [cancelled EXCEPT ![i] = TRUE]
-  /\ H(i, "cancel") /\ UNCHANGED <<shared, tref, own, pool, ph, steps, res, got, seen, after, want, tx>>
+  /\ H(i, "cancel") /\ UNCHANGED <<shared, tref, own, pool, ph, steps, res, got, seen, after, pcctx, wpend, wattr, rres, want, tx>>
 
-Next == \E i \in Inst : Pick(i) \/ Copy(i) \/ Enable(i) \/ Start(i) \/ Step(i) \/ Cancel(i)
+Next == \E i \in Inst : Pick(i) \/ Copy(i) \/ Enable(i) \/ Start(i) \/ WSet(i) \/ Step(i) \/ Cancel(i)
 Spec == Init /\ [][Next]_vars
-FairSpec == Spec /\ \A i \in Inst : WF_vars(Step(i)) /\ WF_vars(Start(i)) /\ WF_vars(Pick(i)) /\ WF_vars(Copy(i)) /\ WF_vars(Enable(i))
+FairSpec == Spec /\ \A i \in Inst : WF_vars(Step(i)) /\ WF_vars(WSet(i)) /\ WF_vars(Start(i)) /\ WF_vars(Pick(i)) /\ WF_vars(Copy(i)) /\ WF_vars(Enable(i))
 
 ---------------------------------------------------------------------------
 AllDone == \A i \in Inst : ph[i] = "done"
 Solo(i) == IF "p0" \in want[i] THEN "ok" ELSE "invalid"
 
 \* C17: shared tables are never written
-SharedImmutable == shared = {}
+SharedImmutable == shared = {} /\ pcctx = 0
 \* C17/C16: the outcome of an instance is a function of its own configuration and transaction (and of its own Cancel)
 Isolation == \A i \in Inst : /\ (ph[i] = "done" /\ res[i] # "cancelled") => res[i] = Solo(i)
                              /\ seen[i] \in {{"?"}, want[i]}     \* new opcodes and repriced opcodes alike: exactly its own extra EIPs
+                             /\ \A k \in 1..Len(wattr[i]) : wattr[i][k] = i     \* its context writes are attributed to its own contract
+                             /\ \A k \in 1..Len(rres[i]) : rres[i][k] = "refused"   \* whatever other instances did before
 Determinism == \A i, j \in Inst : (ph[i] = "done" /\ ph[j] = "done" /\ want[i] = want[j] /\ tx[i] = tx[j] /\ ~cancelled[i] /\ ~cancelled[j]) => res[i] = res[j]
 CancelOnlyOwn == \A i \in Inst : res[i] = "cancelled" => cancelled[i]
 \* C17: a stack handed out by the pool is empty
@@ -121,5 +151,5 @@ CancelStops == \A i \in Inst : after[i] <= 1 /\ (cancelled[i] /\ ph[i] = "done" 
 CancelLive == \A i \in Inst : (cancelled[i] /\ ph[i] = "running") ~> (ph[i] = "done")
 TypeOK == \A i \in Inst : steps[i] \in 0..MaxSteps
 
-Expect == [hist |-> hist, want |-> [i \in Inst |-> (IF "p0" \in want[i] THEN 1 ELSE 0) + (IF "rp" \in want[i] THEN 2 ELSE 0)], tx |-> tx, res |-> res, cancelled |-> cancelled]
+Expect == [hist |-> hist, want |-> [i \in Inst |-> (IF "p0" \in want[i] THEN 1 ELSE 0) + (IF "rp" \in want[i] THEN 2 ELSE 0)], tx |-> tx, res |-> res, cancelled |-> cancelled, wattr |-> wattr, rres |-> rres]
 =============================================================================
